@@ -68,8 +68,8 @@ Base == [ops |-> {}, svc |-> {}, maxS |-> 0, maxC |-> 0, exp |-> 0,
          capUrl |-> "", capKey |-> "", capLogin |-> FALSE,
          bridges |-> {}, origins |-> {}, banned |-> {}]
 
-ValidBodies   == {"P", "A", "Ae", "Ab", "B", "C", "Cn", "Ce", "D", "E", "Z"}
-InvalidBodies == {"Xsyn", "Xtype", "Xdur", "Xhex"}
+ValidBodies   == {"P", "A", "Ae", "Ab", "Ah", "B", "Bu", "C", "Cn", "Ce", "D", "E", "Z"}
+InvalidBodies == {"Xsyn", "Xtype", "Xdur", "Xhex", "Xbig"}
 AllBodies     == ValidBodies \cup InvalidBodies \cup {"R"}   \* "R" = re-post of what GET /config returned
 
 ProjA == [Base EXCEPT !.exp = 30, !.ops = {"o1"}, !.svc = {"s1"}, !.maxS = 2, !.maxC = 1,
@@ -81,6 +81,10 @@ Proj(b) ==
       [] b = "A" -> ProjA
       [] b = "Ae" -> ProjA                                      \* A + an empty [Banned] table
       [] b = "Ab" -> [ProjA EXCEPT !.banned = {"a1"}]           \* A + [Banned] listing a1
+      [] b = "Ah" -> ProjA                                      \* A with > 1 MiB of comments in front of its tables
+      [] b = "Bu" -> [Base EXCEPT !.exp = 60, !.ops = {"o1", "o2"}, !.svc = {"s2"}, !.maxC = 2,
+                                  !.capUrl = "u2", !.capKey = "k1",   \* B with a CaptchaURL that net/url rejects
+                                  !.bridges = {"b1"}, !.origins = {"g1", "g2"}, !.banned = {"a2"}]
       [] b = "B" -> [Base EXCEPT !.exp = 60, !.ops = {"o1", "o2"}, !.svc = {"s2"}, !.maxC = 2,
                                  !.capUrl = "u1", !.capKey = "k1",
                                  !.bridges = {"b1"}, !.origins = {"g1", "g2"}, !.banned = {"a2"}]
@@ -100,9 +104,9 @@ Proj(b) ==
 (* (GLINE'd or listed earlier); only "same" (the re-post of GET /config)     *)
 (* carries them over.  Otherwise-identical bodies: A/Ae/Ab, Cn/Ce/C.         *)
 BannedKind(b) ==
-    CASE b \in {"P", "A", "Cn", "E", "Z"} -> "absent"
+    CASE b \in {"P", "A", "Ah", "Cn", "E", "Z"} -> "absent"
       [] b \in {"Ae", "Ce"}              -> "empty"
-      [] b \in {"Ab", "B", "C", "D"}      -> "listed"
+      [] b \in {"Ab", "B", "Bu", "C", "D"} -> "listed"
       [] b = "R"                         -> "same"
       [] OTHER                           -> "invalid"
 
